@@ -158,13 +158,22 @@ def canon_seed(x):
     return x
 
 
+def _forced(op):
+    """`kseed`: every integer seed drawn for a Cython kernel (`self.rng.randint(1e5)`) is replaced by this value —
+    the rare draws (0, 99999) that a kernel may treat specially are reached deterministically"""
+    if op.get("kseed") is None:
+        return None
+    ks = int(op["kseed"])
+    return {"randint": lambda a, k, v: (ks if (len(a) == 1 and not k and float(a[0]) == 1e5) else v)}
+
+
 def _call_op(mf, op):
     seed = op["seed"]
     if isinstance(seed, dict):
         sd = decode_seed(seed)
-        return RC.run_call(mf, None, False, None, fault=op.get("fault"),
+        return RC.run_call(mf, None, False, None, fault=op.get("fault"), forced=_forced(op),
                            thunk=lambda m: m(tuple(op["shape"]), return_acs=bool(op["acs"]), seed=sd))
-    return RC.run_call(mf, op["shape"], op["acs"], seed, fault=op.get("fault"))
+    return RC.run_call(mf, op["shape"], op["acs"], seed, fault=op.get("fault"), forced=_forced(op))
 
 
 def _consumer_thunk(op, mf):
@@ -178,7 +187,7 @@ def _consumer_thunk(op, mf):
         tr = CreateSamplingMask(mask_func=mf, use_seed=True, return_acs=bool(op["acs"]))
 
         def thunk(m):
-            smp = tr({"kspace": torch.zeros(*op["kshape"]), "filename": op["filename"]})
+            smp = tr({"kspace": torch.zeros(*op["kshape"]), "filename": op["filename"], "slice_no": op.get("slice_no", 0)})
             return [smp["sampling_mask"]] + ([smp["acs_mask"]] if op["acs"] else [])
         return thunk
     if k == "apply_mask":
@@ -202,7 +211,7 @@ def _consumer_thunk(op, mf):
         tr = EstimateBodyCoilImage(Proxy(), backward_operator=lambda ksp, dim: ksp, use_seed=True)
 
         def thunk(m):
-            tr({"kspace": torch.zeros(*op["kshape"]), "filename": op["filename"]})
+            tr({"kspace": torch.zeros(*op["kshape"]), "filename": op["filename"], "slice_no": op.get("slice_no", 0)})
             return list(got)
         return thunk
     raise ValueError(k)
@@ -223,11 +232,17 @@ def _loader(mf, op):
             return len(op["filenames"])
 
         def __getitem__(self, i):
-            smp = tr({"kspace": torch.zeros(*op["kshape"]), "filename": op["filenames"][i]})
+            try:
+                smp = tr({"kspace": torch.zeros(*op["kshape"]), "filename": op["filenames"][i], "slice_no": i})
+            except Exception as e:  # noqa: BLE001 - e.g. an infeasible VD-Poisson seed: an outcome like any other
+                return {"err": type(e).__name__, "pid": os.getpid()}
             return {"m": smp["sampling_mask"], "a": smp["acs_mask"], "pid": os.getpid()}
 
     out = []
     for b in torch.utils.data.DataLoader(DS(), batch_size=None, num_workers=op["workers"], shuffle=False):
+        if "err" in b:
+            out.append({"mask": "err:" + b["err"], "acs": "err:" + b["err"], "pid": int(b["pid"])})
+            continue
         m, a = b["m"].numpy(), b["a"].numpy()
         out.append({"mask": RC.sha(m.shape, str(m.dtype), m.tobytes()), "acs": RC.sha(a.shape, str(a.dtype), a.tobytes()),
                     "pid": int(b["pid"])})
@@ -371,7 +386,10 @@ def _seed_of(kind: str, rng):
 BAD_SEEDS = [1.5, -1, 2 ** 32, [], [-1, 2], [2 ** 32], {"form": "npint64", "v": -3}]     # each is rejected by RandomState.seed
 
 
-def make_history(conf: dict, seedkind: str, rng, idx: int) -> dict:
+KERNEL_GENS = ("Gaussian1D", "Gaussian2D", "VariableDensityPoisson")
+
+
+def make_history(conf: dict, seedkind: str, rng, idx: int, kseed=None) -> dict:
     """confs[0] observed generator, confs[1] a second instance of it, confs[2] another generator, [confs[3] an infeasible
     configuration of the same family,] confs[-1] the slot of a deep copy / pickle round trip of instance 0."""
     others = [g for g in RC.GENERATORS if g != conf["gen"]]
@@ -429,16 +447,16 @@ def make_history(conf: dict, seedkind: str, rng, idx: int) -> dict:
         elif k in ("transform_other", "transform_same"):
             nm = fname if (k == "transform_same" and fname) else "file%d.h5" % rng.randint(1, 9999)
             ops.append({"op": "transform", "inst": 0, "kshape": [rng.choice([1, 4])] + shape, "filename": nm,
-                        "acs": rng.random() < 0.5, "same": nm == fname})
+                        "acs": rng.random() < 0.5, "same": nm == fname, "slice_no": rng.randint(0, 30)})
         elif k == "apply_mask":    # direct.data.transforms.apply_mask(kspace, mask_func, seed): followed by the direct call
-            sd = seed if rng.random() < 0.6 else _seed_of(rng.choice(["int", "tuple", "zero"]), rng)
+            sd = seed if rng.random() < 0.4 else _seed_of(rng.choice(["int", "tuple", "zero", "zero", "zero"]), rng)
             ops.append({"op": "apply_mask", "inst": 0, "kshape": [2] + shape, "seed": sd})
             ops.append({"op": "call", "inst": 0, "shape": shape, "acs": False, "seed": sd, "twin": len(ops) - 1})
         elif k == "body_coil":     # EstimateBodyCoilImage: ACS mask of the *last three* axes, seed = file name
             if not static:
                 continue
             nm = fname if (fname and rng.random() < 0.6) else "file%d.h5" % rng.randint(1, 9999)
-            ops.append({"op": "body_coil", "inst": 0, "kshape": [2] + shape[-3:], "filename": nm})
+            ops.append({"op": "body_coil", "inst": 0, "kshape": [2] + shape[-3:], "filename": nm, "slice_no": rng.randint(1, 30)})
             ops.append({"op": "call", "inst": 0, "shape": shape[-3:], "acs": True, "seed": list(map(ord, nm)),
                         "twin": len(ops) - 1})
         elif k == "clone":         # copy of instance 0 mid-history; later calls may go to the copy
@@ -492,18 +510,24 @@ def make_history(conf: dict, seedkind: str, rng, idx: int) -> dict:
         observed.append(len(ops) - 1)
     ops.append({"op": "call", "inst": obs, "shape": shape, "acs": first_acs, "seed": seed})
     observed.append(len(ops) - 1)
+    if kseed is not None:
+        for o in ops:
+            if o["op"] == "call":
+                o["kseed"] = kseed
     return {"confs": confs, "ops": ops, "shape": shape, "seed": seed, "seedkind": seedkind, "fresh": obs_kind == "fresh",
+            "kseed": kseed,
             "obs_kind": obs_kind, "observed": observed, "pattern": "B" if first_acs else "A",
             "nontrivial": has_call0 and has_pert and max(shape[:-1]) >= 2, "idx": idx}
 
 
 def reference_job(h: dict) -> dict:
     # the same calls alone, each on its own fresh instance, in another process: steps[1] = mask, steps[3] = ACS
+    ks = {"kseed": h["kseed"]} if h.get("kseed") is not None else {}
     return {"confs": [h["confs"][0], h["confs"][0]],
             "ops": [{"op": "new", "inst": 0},
-                    {"op": "call", "inst": 0, "shape": h["shape"], "acs": False, "seed": h["seed"]},
+                    {"op": "call", "inst": 0, "shape": h["shape"], "acs": False, "seed": h["seed"], **ks},
                     {"op": "new", "inst": 1},
-                    {"op": "call", "inst": 1, "shape": h["shape"], "acs": True, "seed": h["seed"]}]}
+                    {"op": "call", "inst": 1, "shape": h["shape"], "acs": True, "seed": h["seed"], **ks}]}
 
 
 def _observed(h):
@@ -543,7 +567,7 @@ def _site_index(table: dict, e: dict) -> int:
     return best
 
 
-def run_histories(ctx: Ctx, n_per_conf: int, store: dict):
+def run_histories(ctx: Ctx, n_per_conf: int, store: dict, kseeds=()):
     # two processes with different hash randomisation: nothing about a seeded mask may depend on `hash()`
     wa, wb = RC.Worker(extra_env={"PYTHONHASHSEED": "1"}), RC.Worker(extra_env={"PYTHONHASHSEED": "20230917"})
     store.setdefault("histories", [])
@@ -574,6 +598,24 @@ def run_histories(ctx: Ctx, n_per_conf: int, store: dict):
                                                    "crash": str(e)[:120], "gen": conf["gen"]})
                             continue
                         store["histories"].append(h)
+        # rare kernel seeds reached deterministically (every `self.rng.randint(1e5)` forced to the value): thorough
+        # tier and failing-input search only
+        for ks in kseeds:
+            for gen in KERNEL_GENS:
+                for conf in confs_for(gen):
+                    h = make_history(conf, "int", ctx.rng, idx, kseed=ks)
+                    idx += 1
+                    try:
+                        h["res"] = wa.call(MOD, "job_history", {"confs": h["confs"], "ops": h["ops"]}, budget=60)
+                        h["ref"] = wb.call(MOD, "job_history", reference_job(h), budget=60)
+                    except RC.Hang as e:
+                        store["hangs"].append({"history": {k: h[k] for k in ("confs", "ops")}, "budget": e.budget})
+                        continue
+                    except RC.WorkerFailure as e:
+                        store["hangs"].append({"history": {k: h[k] for k in ("confs", "ops")}, "budget": 0,
+                                               "crash": str(e)[:120], "gen": conf["gen"]})
+                        continue
+                    store["histories"].append(h)
     finally:
         wa.close()
         wb.close()
@@ -582,7 +624,7 @@ def run_histories(ctx: Ctx, n_per_conf: int, store: dict):
 def prepare(ctx: Ctx):
     _RUN.clear()
     _RUN["table"] = _table()
-    run_histories(ctx, ctx.budget(2, 12), _RUN)
+    run_histories(ctx, ctx.budget(2, 12), _RUN, kseeds=(0, 99999) if ctx.thorough else ())
 
 
 # --------------------------------------------------------------------------------------------------
@@ -646,6 +688,13 @@ def _kernel_index(table, name: str) -> int:
     return names.index(nm) if nm in names else (0 if table.get("skipped") else 99)
 
 
+def _tag(call, op):
+    """a call that raised before it drew anything is the same outcome whatever its seed"""
+    if call["err"] and not any(e["kind"] == "draw" for e in call["log"]):
+        return f"nodraw:{call['err']}"
+    return "fault" if (op.get("fault") and call["err"] == "RuntimeError") else None
+
+
 CONSUMER_SUBS = {"transform": [False, True], "apply_mask": [False], "body_coil": [True]}
 
 
@@ -680,8 +729,7 @@ def correspondence(ctx: Ctx):
                 snaps.append(st["snap"])
             elif k == "call":
                 cid = conf_ids.setdefault(json.dumps(h["confs"][op["inst"]], sort_keys=True), len(conf_ids))
-                tag = "fault" if (op.get("fault") and st["call"]["err"] == "RuntimeError") else \
-                    "badseed" if op.get("bad") else None
+                tag = _tag(st["call"], op)
                 key = keys.setdefault((cid, tuple(op["shape"]), op["acs"], tag), len(keys))
                 sd = -1 if op["seed"] is None else seeds.setdefault(json.dumps(canon_seed(op["seed"])), len(seeds))
                 groups.append([0, op["inst"], key, sd] + _events(table, st["call"], reqs))
@@ -708,7 +756,7 @@ def correspondence(ctx: Ctx):
                     masks = st["call"].get("masks") or []
                     pcall = {"err": st["call"]["err"] if n_sub == len(subs) - 1 else None,
                              "mask": masks[n_sub] if n_sub < len(masks) else None, "log": sub}
-                    key = keys.setdefault((cid, tuple(pop["shape"]), acs, None), len(keys))
+                    key = keys.setdefault((cid, tuple(pop["shape"]), acs, _tag(pcall, {})), len(keys))
                     groups.append([0, op["inst"], key, sd] + _events(table, pcall, reqs))
                     snaps.append(st["snap"])
                     outs.append(_out_identity(cid, pop, pcall))
@@ -734,7 +782,8 @@ def correspondence(ctx: Ctx):
         conf = h["confs"][0]
         yield {"line": line("hist", *groups), "impl": (lambda a=ans: a), "nontrivial": h["nontrivial"],
                "key": ("hist", h["idx"], json.dumps(h["ops"], sort_keys=True)),
-               "bucket": f"hist/{conf['gen']}/{conf['mode']}/{h['seedkind']}/{h.get('obs_kind', 'fresh' if h['fresh'] else 'reused')}/{h.get('pattern', '')}"}
+               "bucket": f"hist/{conf['gen']}/{conf['mode']}/{h['seedkind']}/{h.get('obs_kind', 'fresh' if h['fresh'] else 'reused')}/{h.get('pattern', '')}"
+                         + (f"/kseed{h['kseed']}" if h.get("kseed") is not None else "")}
         # ACS branch vs mask branch of the observed call (last two steps)
         _, mi, ai = _observed(h)
         mask_call, acs_call = res["steps"][mi]["call"], res["steps"][ai]["call"]
@@ -886,7 +935,7 @@ def oracle(ctx: Ctx, deep: bool = False):
     store = _RUN
     if deep or "histories" not in store:
         store = {"table": _table()}
-        run_histories(ctx, 4 if deep else ctx.budget(2, 12), store)
+        run_histories(ctx, 4 if deep else ctx.budget(2, 12), store, kseeds=(0, 99999, 1) if deep else ())
     table = store["table"]
     for hg in store.get("hangs", []):
         if hg.get("crash"):
